@@ -40,6 +40,13 @@ func (cl *CheckpointList) Add(ckptID uint64, ll *sst.LevelList, w *wal.Writer, l
 		WALs:       []wal.Handle{w.Handle(ll.LatestSeqNum)},
 		LastSeqNum: lastSeqNum,
 	}
+	// Index the table files so that IncludesTable answers for this checkpoint too.
+	cp.tableURIset = make(map[string]struct{})
+	for level := range ll.DescendLevels() {
+		for t := range level.AllTables() {
+			cp.tableURIset[t.URI()] = struct{}{}
+		}
+	}
 	cl.checkpoints = append(cl.checkpoints, cp)
 }
 
